@@ -6,7 +6,12 @@ Case kinds
   {"kind": "sweep", "name", "template", "opts"}            -> exception class of pickle.load per offset
   {"kind": "history", "name", "template", "optsets", "ops"} -> one result per op
 ops:  ["edit"] | ["bump"] | ["transfer", o] | ["crash", o, j] | ["cut", k] | ["reader", o, j]
-      | ["two", oa, ob, schedule] | ["reader2", o, j, schedule]
+      | ["two", oa, ob, schedule] | ["reader2", o, j, schedule] | ["gap", o, schedule]
+  gap: (schedule = list of single steps "A"/"B" or [thread, label] = run that thread up to its next checkpoint
+  with that label: tested | walk | open | loaded | removed | end)  caller A = transfer_model(optsets[o]); caller B = transfer_model({"codegen": True}) whose _codegen_model is
+  replaced by a kill (no gcc): B rejects the cache file, compiles, enters save_model, removes the cache file and
+  dies.  Extra checkpoints through a proxy for the name `os` in api.py: after every existence/mtime test of the
+  cache file, before os.walk, before the cache file is opened for reading, after os.remove of the cache file
   two: callers A (options oa) and B (ob) run transfer_model in two threads, one at a time under a
   deterministic scheduler with checkpoints after load_model, before _compile_model, before save_model;
   `schedule` (a string over A/B) says who advances one step at a time (then A, then B run to the end)
@@ -82,12 +87,23 @@ class Sched:
         self.go = {n: threading.Semaphore(0) for n in names}
         self.arr = {n: threading.Semaphore(0) for n in names}
         self.done = {n: False for n in names}
+        self.last = {n: None for n in names}
 
-    def checkpoint(self):
+    def checkpoint(self, label=None):
         n = threading.current_thread().name
         if n in self.go:
+            self.last[n] = label
             self.arr[n].release()
             self.go[n].acquire()
+
+    def until(self, n, label):
+        """advance thread n until it stops at a checkpoint with this label ("end": until it is done)"""
+        for _ in range(200):
+            if self.done[n]:
+                return
+            self.step(n)
+            if label != "end" and self.last[n] == label and not self.done[n]:
+                return
 
     def worker(self, n, fn):
         self.go[n].acquire()
@@ -360,6 +376,110 @@ def do_history(case):
         return {"A": res.get("A", {"out": "Raised", "exc": "thread-died"}),
                 "B": res.get("B", {"out": "Raised", "exc": "thread-died"}), "save_order": save_order}
 
+    def gap(o, schedule):
+        sched = Sched(["A", "B"])
+        orig = (a.load_model, a._compile_model, a.save_model, a._codegen_model)
+        events = []
+
+        def me():
+            return threading.current_thread().name
+
+        class PathProxy:
+            def __getattr__(s, n):
+                f = getattr(os.path, n)
+                if n not in ("isfile", "exists", "getmtime", "getsize"):
+                    return f
+
+                def g(p, *ar, **k):
+                    try:
+                        return f(p, *ar, **k)
+                    finally:
+                        if str(p) == cache:
+                            sched.checkpoint("tested")
+                return g
+
+        class OsProxy:
+            path = PathProxy()
+
+            def __getattr__(s, n):
+                return getattr(os, n)
+
+            def walk(s, *ar, **k):
+                sched.checkpoint("walk")
+                return os.walk(*ar, **k)
+
+            def remove(s, p, *ar, **k):
+                os.remove(p, *ar, **k)
+                if str(p) == cache:
+                    events.append(me() + ":removed")
+                    sched.checkpoint("removed")
+            unlink = remove
+
+        def gopen(p, mode="r", *ar, **k):
+            if str(p) == cache and "w" not in mode:
+                sched.checkpoint("open")
+            return builtins.open(p, mode, *ar, **k)
+
+        def load_model(*args, **kw):
+            try:
+                return orig[0](*args, **kw)
+            finally:
+                events.append(me() + ":loaded")
+                sched.checkpoint("loaded")
+
+        def compile_model(*args, **kw):
+            sched.checkpoint()
+            return orig[1](*args, **kw)
+
+        def save_model(*args, **kw):
+            sched.checkpoint()
+            try:
+                return orig[2](*args, **kw)
+            finally:
+                events.append(me() + ":saved")
+
+        def codegen_model(*args, **kw):
+            raise SimCrash()
+
+        res = {}
+        a.load_model, a._compile_model, a.save_model, a._codegen_model = load_model, compile_model, save_model, codegen_model
+        a.os, a.open = OsProxy(), gopen
+        try:
+            jobs = (("A", lambda: transfer(o)), ("B", lambda: transfer_opts({"codegen": True})))
+            ths = [threading.Thread(target=sched.worker, name=n, args=(n, (lambda n=n, f=f: res.__setitem__(n, f()))))
+                   for n, f in jobs]
+            for t in ths:
+                t.start()
+            for ch in schedule:
+                if isinstance(ch, str):
+                    sched.step(ch)                 # one step
+                else:
+                    sched.until(ch[0], ch[1])      # [thread, checkpoint label]
+            for n in ("A", "B"):
+                while not sched.done[n]:
+                    sched.step(n)
+            for t in ths:
+                t.join()
+        finally:
+            a.load_model, a._compile_model, a.save_model, a._codegen_model = orig
+            a.os = os
+            a.__dict__.pop("open", None)
+        late = ("A:loaded" in events and "B:removed" in events and events.index("A:loaded") < events.index("B:removed"))
+        return {"A": res.get("A", {"out": "Raised", "exc": "thread-died"}),
+                "B": res.get("B", {"out": "Raised", "exc": "thread-died"}), "events": events, "late": late,
+                "savedfirst": ("A:saved" in events and "B:removed" in events
+                               and events.index("A:saved") < events.index("B:removed")),
+                "removed": "B:removed" in events}
+
+    def transfer_opts(opts):
+        try:
+            a.transfer_model(d, name, json.loads(json.dumps(opts)))
+        except SimCrash:
+            return {"out": "Died"}
+        except BaseException as e:  # noqa
+            return {"out": "Raised", "exc": type(e).__name__, "msg": str(e)[:200]}
+        return {"out": "completed"}
+
     out = []
     try:
         write_src()
@@ -417,6 +537,9 @@ def do_history(case):
             elif op[0] == "two":
                 out.append(two(op[1], op[2], op[3]))
                 stamp(before)
+            elif op[0] == "gap":
+                out.append(gap(op[1], op[2]))
+                stamp(before)
             elif op[0] == "reader2":
                 res = {}
 
@@ -437,6 +560,7 @@ def do_history(case):
         return {"results": out, "final_size": (os.path.getsize(cache) if os.path.exists(cache) else None)}
     finally:
         a.__dict__.pop("open", None)
+        a.os = os
         a.__version__ = VERSION
         shutil.rmtree(d, ignore_errors=True)
 
